@@ -51,6 +51,9 @@ namespace sim
    // C18: guarded run vs. the same case with every limit wrapper replaced by a plain wrapper
    void check_unguarded( const Case& c, const RunResult& guarded, const RunResult& plain, std::vector< Violation >& out );
 
+   // C07.iofault: an I/O error of a stock file / stream input surfaces as the documented exception
+   void check_iofault( const Case& c, const RunResult& alt, std::vector< Violation >& out, Features& f );
+
    std::string dump_history( const RunResult& r, std::size_t max_events = 400 );
 
 }  // namespace sim
